@@ -18,7 +18,7 @@ META = {
     "design_ref": "DESIGN.md §5 C01",
 }
 
-CFGS = [("MC_c01_a.cfg", "a", 400), ("MC_c01_b.cfg", "b", 400), ("MC_c01_c.cfg", "c", 400)]
+CFGS = [("MC_c01_a.cfg", "a", 400), ("MC_c01_b.cfg", "b", 400), ("MC_c01_c.cfg", "c", 400), ("MC_c01_e.cfg", "e", 400)]
 
 
 def model_cex(ctx, e, mode):
